@@ -14,7 +14,7 @@ import torch
 from harness import wave_common as W
 
 PROPS = ['C03_linear', 'C03_zero_to_zero', 'C03_linear_numpy_fresnel', 'C03_linear_numpy_impulse_response',
-         'C03_linear_fraunhofer', 'C03_shift_equivariant', 'C03_upsample_linear', 'C03_upsample_zero', 'C03_shift_equivariant_numpy_fresnel']
+         'C03_linear_fraunhofer', 'C03_shift_equivariant', 'C03_upsample_linear', 'C03_upsample_zero', 'C03_shift_equivariant_numpy_fresnel', 'C03_zero_to_zero_other_forms']
 T_METHODS = ['Angular Spectrum', 'Bandlimited Angular Spectrum', 'Transfer Function Fresnel', 'Impulse Response Fresnel',
              'Seperable Impulse Response Fresnel', 'Incoherent Angular Spectrum', 'custom', 'Fraunhofer']
 N_METHODS = ['Angular Spectrum', 'Bandlimited Angular Spectrum', 'Transfer Function Fresnel', 'Impulse Response Fresnel', 'Fraunhofer', 'Fraunhofer Inverse',
@@ -64,6 +64,11 @@ def oracle_linear(inp):
     out = [('finite', bool(np.isfinite(comb).all()), True, False)]
     e = float(np.abs(comb - ref).max() / scale)
     out.append(('superposition', e <= tol * (1 + abs(a) + abs(b)), '<= %g' % tol, e))
+    # homogeneity far from unit amplitude (a weak field is still a field: nothing may be thresholded away, nothing may saturate)
+    for sc in (1e-9, 3e6):
+        ps = W.to_np(P(sc * u))
+        es = float(np.abs(ps - sc * pu).max() / max(1e-300, sc * np.abs(pu).max()))
+        out.append(('homogeneity_extreme_scale', bool(np.isfinite(ps).all()) and es <= 4 * tol, '<= %g at scale %g' % (4 * tol, sc), es))
     z0 = W.to_np(P(np.zeros(shape, dtype=complex)))
     out.append(('zero_to_zero', float(np.abs(z0).max()) == 0.0, 0.0, float(np.abs(z0).max())))
     return out
